@@ -7,19 +7,19 @@ def E(tech, text, note, ref):
 
 CHECKS = {
  "C01": E("bounded-exhaustive enumeration of a compile-time corpus of ~800 Rust types x small values x 4 API pairs, plus explicit-state BFS over histories of type-derivation / builder / encode / decode operations (fresh OS thread per history, states merged on a canonical digest of memo, builders and decoder)",
-          "Every small value of every corpus type is encoded and decoded through Encode!/Decode!, encode_args/decode_args, encode_one/decode_one and IDLBuilder+IDLDeserialize+done and compared (floats by bits) with itself; two-argument messages over all ordered pairs of a reduced corpus; every history of <=4 (thorough 5) operations over the memo-sensitive types is replayed on a fresh thread, every produced message is decoded by the strict reference decoder and the real decoder, and every operation's outcome must not depend on the history.",
+          "Every small value of every corpus type is encoded and decoded through Encode!/Decode!, encode_args/decode_args, encode_one/decode_one and IDLBuilder+IDLDeserialize+done and compared (floats by bits) with itself; two-argument messages over all ordered pairs of a reduced corpus (incl. two different types with one type_name, deques in both storage shapes, identifiers outside ASCII, 256-byte strings and method names); every history of <=4 (thorough 5) operations over the memo-sensitive types is replayed on a fresh thread, every produced message is decoded by the strict reference decoder and the real decoder, and every operation's outcome must not depend on the history.",
           "Trusted: the corpus' own Cor::to_val (abstract value of a Rust value) and the R2 strict decoder. Rust types are a finite compile-time product, not 'all Rust types'.",
           "DESIGN.md section 5 C01, Appendix C.1"),
  "C02": E("bounded-exhaustive enumeration of (message, expected type) scopes + <=2-byte deviations of the real decoder vs. a spec-derived reference decoder and coercion function",
-          "Every (wire type, value, expected type) triple of the stated finite scopes, every legal table transformation, every hostile table of <=2 entries and every 1-byte (thorough: 2-byte) deviation is decoded by the real untyped decoder and by the reference model (strict binary grammar + coercion relation); acceptance and returned values must agree case by case.",
+          "Every (wire type, value, expected type) triple of the stated finite scopes, every legal table transformation, every hostile table of <=2 entries, one-step neighbour pairs whose deciding component sits behind an alias chain, length-prefixed data at 127..65536 bytes, and every 1-byte (thorough: 2-byte) deviation is decoded by the real untyped decoder and by the reference model (strict binary grammar + coercion relation); acceptance and returned values must agree case by case.",
           "Trusted: reference models R2/R3/R4 written from spec/Candid.md (self-consistency checked at setup); scope bounds as listed in evidence.rule.",
           "DESIGN.md section 5 C02, Appendix A.2"),
  "C03": E("bounded-exhaustive enumeration of encoder inputs (all corpus values natively, all (environment, type, value) triples through the untyped API) checked by a strict spec-derived decoder and exact re-serialisation",
-          "Every message the encoders produce in scope is decoded by the strict reference decoder (composite-only table, ascending unique ids and method names, index ranges, nothing left over), must denote exactly the input values at types structurally equal to the specified ones, and must equal the canonical re-serialisation of what was decoded (minimal LEB128, declared variant index); encoding twice and serialising a builder twice give identical bytes.",
+          "Every message the encoders produce in scope is decoded by the strict reference decoder (composite-only table, ascending unique ids and method names, index ranges, nothing left over), must denote exactly the input values at types structurally equal to the specified ones, and must equal the canonical re-serialisation of what was decoded (minimal LEB128, declared variant index); encoding twice and serialising a builder twice give identical bytes; one builder used for two messages (arg, serialize, serialize, arg, serialize) over all ordered pairs of a reduced corpus emits what a fresh builder emits.",
           "Trusted: R2 decoder/encoder of values, R3 equality, Cor::to_ty/to_val as the specified Rust mapping.",
           "DESIGN.md section 5 C03"),
  "C04": E("bounded-exhaustive enumeration of type pairs accepted by the real subtype check x all small values of the subtype, decoded at the supertype (untyped and native), incl. chains",
-          "For every pair of the C05 scope that the implementation's own subtype check accepts, every tiny-domain value of the subtype is encoded and decoded at the supertype: it must succeed and the result must be typed at the supertype by the reference typing judgement; decoding via an intermediate supertype differs from direct decoding only by ~ (opt to null). Native half: all ordered pairs of a reduced Rust corpus accepted by the checker.",
+          "For every pair of the C05 scope that the implementation's own subtype check accepts, every tiny-domain value of the subtype is encoded and decoded at the supertype: it must succeed and the result must be typed at the supertype by the reference typing judgement; decoding via an intermediate supertype differs from direct decoding only by ~ (opt to null). The scope includes side conditions decided through alias chains. Native half: all ordered pairs of a reduced Rust corpus accepted by the checker, incl. an upgrade pair of enums with a case added inside variant payloads, below options.",
           "Trusted: R1 typing and ~, R2 encoder. Environments with opt-only cycles (type A = opt A) and with uninhabited infinitely recursive records are outside the scope (the spec's coercion has no finite derivation there / the header parser rewrites them to empty).",
           "DESIGN.md section 5 C04"),
  "C05": E("bounded-exhaustive enumeration of type-environment pairs and BFS over query histories sharing one memo (explicit-state, states merged on memo content), real subtype/equal/upgrade checks vs. a greatest-fixed-point reference",
@@ -27,7 +27,7 @@ CHECKS = {
           "Trusted: R3 (gfp over reachable pairs) as a reading of the spec's rules. Transitivity is demanded on the null-free fragment only, because the spec's own relation is not transitive through null-typed record fields.",
           "DESIGN.md section 5 C05; Appendix A.1, C.2"),
  "C06": E("bounded-exhaustive enumeration of byte strings, 1-byte deviations and parameter-swept hostile families x 24 targets x 8-10 decoder configurations x 3 stack classes x 2 build profiles, each call in a single-threaded worker process under a counting allocator",
-          "All byte strings DIDL+s up to the stated lengths, every 1-byte deviation of valid messages, and every member of the hostile families (huge/over-long counts at every count position, zero-sized element bombs, recursive tables, nesting 1..20000 of opt / vec / record / variant chains, counts whose byte size lies within 32 bytes of 2^63 / 2^64, future-typed values) are decoded at native and untyped targets under every configuration: each call returns Ok or Err; a panic, a dead worker, 20 s of the worker's CPU time without progress or an allocation above 4 MiB + 64*|input| + 64*quota is a violation; checked and release builds must agree.",
+          "All byte strings DIDL+s up to the stated lengths, every 1-byte deviation of valid messages, and every member of the hostile families (huge/over-long counts at every count position, zero-sized element bombs, recursive tables, nesting 1..20000 of opt / vec / record / variant chains, counts whose byte size lies within 32 bytes of 2^63 / 2^64, future-typed values, wire-supplied strings with a multi-byte character across round byte offsets, two and three deep values in one message consumed in different ways with the depths sweeping through the region where each stack class runs out) are decoded at native and untyped targets under every configuration: each call returns Ok or Err; a panic, a dead worker, 20 s of the worker's CPU time without progress or an allocation above 4 MiB + 64*|input| + 64*quota is a violation; checked and release builds must agree.",
           "Trusted: the counting allocator and the process supervisor. 'Work proportional to the quota' is decided through allocation and termination, not timing; unmetered runs only on messages denoting <= 10^6 value nodes.",
           "DESIGN.md section 5 C06"),
  "C07": E("budget sweep: for every message of the scope the decoding cost is measured and then every quota value 0..=cost+2 (each a distinct abort point) is replayed on the real decoder; cost compared with a reference cost model",
@@ -35,7 +35,7 @@ CHECKS = {
           "Trusted: R5 (documented cost formula), R2 node counts, R4 to decide what is skipped. K=4 was chosen from the measured distribution (reported in evidence outcomes cost/model:*).",
           "DESIGN.md section 5 C07"),
  "C08": E("bounded-exhaustive enumeration of corpus Rust targets x messages at the target's type, every one-step neighbour type and byte-layout look-alikes; native decoding vs. untyped decoding at the same Candid type",
-          "For every corpus type (plus borrowed targets and BoundedVec with each limit kind) and every message of the scope, Decode! succeeds iff from_bytes_with_types at the type's Candid type succeeds (documented host limits excused and computed independently) and both denote the same abstract value.",
+          "For every corpus type (plus borrowed targets and BoundedVec with each limit kind) and every message of the scope - at the target's own level and again one level below an option (wire opt w, target Option<T>) - Decode! succeeds iff from_bytes_with_types at the type's Candid type succeeds (documented host limits excused and computed independently) and both denote the same abstract value.",
           "Trusted: Cor::to_val for native results, R2 encoder for the messages, reference arithmetic for bounded-vector limits (DataSize as documented: Vec counts its 24-byte header).",
           "DESIGN.md section 5 C08"),
  "C09": E("bounded-exhaustive enumeration of (S)LEB128 byte strings (all strings of length <=2, thorough <=3; run-length pattern families around the 64- and 128-bit boundaries with all final byte pairs; unterminated strings) and of integers +-2^k+d, on 17 decoder and 10 encoder entry points in both build profiles",
